@@ -22,6 +22,10 @@ pub fn run_code_block(registers: &mut Registers, mem: *mut MemoryAreas) -> u8 {
     if start < 0x8000 && (next ^ start) & !0x3fff != 0 {
       break;
     }
+    // An instruction that reaches into the next region is a block of its own
+    if crate::mem::straddles_rom_region(next as usize, mem) {
+      break;
+    }
     /*
     let index = registers.ip as usize;
     let code_slice = get_executable_memory_slice(index, mem);
